@@ -135,7 +135,9 @@ func New(config ...Config) fiber.Handler {
 		// Cache Entry found
 		if e != nil {
 			// Invalidate cache if requested
-			if cfg.CacheInvalidator != nil && cfg.CacheInvalidator(c) {
+			// with an external storage the manager hands out an empty item (exp == 0) for a key
+			// that is not cached: there is nothing to invalidate (and nothing on the heap)
+			if cfg.CacheInvalidator != nil && cfg.CacheInvalidator(c) && e.exp != 0 {
 				e.exp = ts - 1
 			}
 
